@@ -105,6 +105,10 @@ MUTANTS = {
     'cli_logs_ignore_tid': (P + '__main__.py', "    parser = PyKdebugParser()\n    parser.filter_tid = tid\n    parser.filter_process = process\n    parser.show_tid = show_tid\n    print_with_count(parser.formatted_logs(kdebug_dump), count)",
                             "    parser = PyKdebugParser()\n    parser.filter_process = process\n    parser.show_tid = show_tid\n    print_with_count(parser.formatted_logs(kdebug_dump), count)", ['C12']),
     'log_filter_by_name_only': (P + 'pykdebugparser.py', "filter(lambda e: self.filter_process in (e.process, str(e.process_identifier)),", "filter(lambda e: self.filter_process == e.process,", ['C12']),
+    'kperf_mask_narrow': (P + 'trace_handlers/perf.py', "to_kperf_ti_state(args[3] & 0xffff)", "to_kperf_ti_state(args[3] & 0xf)", ['C11']),
+    'rfa_prot_shift': (P + 'trace_handlers/mach.py', "caller_prot = to_vm_prot((args[1] >> 8) & 0xff)", "caller_prot = to_vm_prot((args[1] >> 8) & 0x7f)", ['C11']),
+    'dispatch_state_word': (P + 'trace_handlers/mach.py', "return MachDispatch(events, args[0], to_ast_reasons(args[1]), to_thread_state(args[2]), args[3])", "return MachDispatch(events, args[0], to_ast_reasons(args[1]), to_thread_state(args[2] & 0x7f), args[3])", ['C11']),
+    'errno_byte': (P + 'trace_handlers/bsd.py', "    return success if not error_code else err", "    return success if not error_code & 0xff else err", ['C10']),
 }
 
 
